@@ -29,6 +29,10 @@ class IE(enum.IntEnum):
     Y = 2
 
 
+class Fl(float):
+    """a strict subclass of float (promotion float -> complex must reach it through the MRO)"""
+
+
 NT0 = NewType("NT0", int)
 NT1 = NewType("NT1", str)
 NT2 = NewType("NT2", A)
@@ -42,5 +46,6 @@ def instance(cls, i):
         return list(cls)[i]
     key = (cls, i)
     if key not in INSTANCES:
-        INSTANCES[key] = cls()
+        # a float subclass instance that is == to no other object of the universe
+        INSTANCES[key] = cls(3.25 + i) if issubclass(cls, float) else cls()
     return INSTANCES[key]
